@@ -61,6 +61,11 @@ func damage(t *sim.Tape, enc []byte) (out []byte, how string) {
 		// would end the process instead of the run; 2^24 elements are enough to
 		// see an allocation that ignores the input size, 2^62 and up panic recoverably)
 		l := pick(t, uint64(1)<<20, 1<<22, 1<<24, 1<<24+1, 1<<23, 1<<62, ^uint64(0), 1<<63, 1<<62+5, 0)
+		if t.Chance(1, 4) {
+			// a count that only looks small once it is multiplied by an element size
+			// (a bound computed as count * size wraps around 2^64)
+			l = ^uint64(0)/uint64(pick(t, 8, 16, 24, 32, 40, 48, 64, 72, 96, 104, 112, 120, 128, 136, 160, 200, 256)) + uint64(t.Range(1, 3))
+		}
 		old := binary.LittleEndian.Uint64(out[o:])
 		binary.LittleEndian.PutUint64(out[o:], l)
 		return out, fmt.Sprintf("8-byte field at offset %d changed from %d to %d", o, old, l)
@@ -404,6 +409,35 @@ func runCodec(s *Session) string {
 		}
 	}
 	e.inc("codec.objects")
+	if s.countSweep {
+		// C10: every field of the encoding that could be a count, one at a time,
+		// replaced by counts no input of this size can hold
+		var offs []int
+		for o := 0; o+8 <= len(c.enc); o++ {
+			if v := binary.LittleEndian.Uint64(c.enc[o:]); v > 0 && v <= 1<<16 && uint64(o)+8+v <= uint64(len(c.enc)) && c.enc[o] != 0 {
+				offs = append(offs, o)
+			}
+		}
+		for len(offs) > 48 {
+			i := t.Choose(len(offs))
+			offs = append(offs[:i], offs[i+1:]...)
+		}
+		for _, o := range offs {
+			for _, l := range []uint64{1 << 62, ^uint64(0)/uint64(pick(t, 8, 16, 24, 32, 40, 48, 64, 72, 96, 104, 112, 120, 128, 136, 160, 200, 256)) + uint64(t.Range(1, 3)), 1<<24 + 1} {
+				crafted := append([]byte(nil), c.enc...)
+				old := binary.LittleEndian.Uint64(crafted[o:])
+				binary.LittleEndian.PutUint64(crafted[o:], l)
+				how := fmt.Sprintf("8-byte field at offset %d changed from %d to %d", o, old, l)
+				g := c.fresh()
+				guardedDecode(e, c.name, how, len(crafted), len(crafted), func() error { return c.dec(g, crafted) })
+				e.inc("hostile.count-fields")
+				if len(s.viols) > 0 || len(e.viols) > 0 {
+					return "count-sweep"
+				}
+			}
+		}
+		return "count-sweep"
+	}
 	got := c.fresh()
 	var err error
 	if p := guardPanic(func() { err = c.dec(got, c.enc) }); p != "" {
